@@ -100,6 +100,8 @@ def pEpCfg (ts : List String) : Option (EpConfig × List String) :=
 
 def isActiveC (c : Client HS) : Bool := match c.state with | .active .. => true | _ => false
 def sbsC (c : Client HS) : Nat := match c.state with | .active _ h _ _ => HalfConn.sendBufferSize h | _ => 0
+def rttOfH (h : HS) : String := match h.rate.rttS with | some r => toString r.toBits.toNat | none => "-"
+def rttC (c : Client HS) : String := match c.state with | .active _ h _ _ => rttOfH h | _ => "-"
 
 def epOp (m : EpMachine) (toks : List String) : EpMachine × String :=
   if m.dead then (m, "dead") else
@@ -194,7 +196,7 @@ def epOp (m : EpMachine) (toks : List String) : EpMachine × String :=
           match p.client with
           | none => (m, "bad-op")
           | some c =>
-            if op == "cget" then (m, s!"active={b2n (isActiveC c)} sbs={sbsC c}")
+            if op == "cget" then (m, s!"active={b2n (isActiveC c)} sbs={sbsC c} rtt={rttC c}")
             else (m.setPeer i { p with client := some (c.disconnect (if op == "cdisc" then .flush else .now)) }, "ok")
       else if op == "sdisc" || op == "sdiscnow" || op == "sdrop" || op == "sget" then
         match m.peer i, m.server with
@@ -206,8 +208,8 @@ def epOp (m : EpMachine) (toks : List String) : EpMachine × String :=
             | some c =>
               if op == "sget" then
                 match c.state with
-                | .active h _ _ => (m, s!"active=1 sbs={HalfConn.sendBufferSize h}")
-                | _ => (m, "active=0 sbs=0")
+                | .active h _ _ => (m, s!"active=1 sbs={HalfConn.sendBufferSize h} rtt={rttOfH h}")
+                | _ => (m, "active=0 sbs=0 rtt=-")
               else ({ m with server := some (s.disconnect i (if op == "sdisc" then .flush else .now)) }, "ok")
         | _, _ => (m, "bad-op")
       else (m, "bad-op")
